@@ -140,6 +140,36 @@ def run_longpiece(ctx, pt):
     ctx.eq('C14/%s/long-piece/close' % a, ctx.attempt(lambda: o.update(M[(nb + 1) * bl:], padding=True)), ('ok', HF.ref(a, M)))
 
 
+FAST = ('md4', 'md5', 'sha0', 'sha1', 'sha224', 'sha256', 'sha384', 'sha512', 'sha512_224', 'sha512_256', 'blake2b')
+
+
+def pts_pow2(tier):
+    pts = [(a, 16, dn) for a in ALGS for dn in ((-1, 0, 1) if a in FAST else (0,))]
+    if tier == 'thorough':
+        pts += [(a, 20, 0) for a in ALGS] + [(a, 21, 0) for a in ALGS if a in FAST]
+    return pts
+
+
+def run_pow2(ctx, pt):
+    """messages of exactly 2^k bytes (and one byte either side at 2^16): one-shot call versus two pieces, both versus
+    hashlib where hashlib has the algorithm (sizes where an implementation would naturally slice its input)"""
+    import hashlib
+    a, k, dn0 = pt
+    n = 1 << k
+    for dn in (dn0,):
+        M = (expander(1 << 16, 51) * ((n >> 16) + 1))[:n + dn]
+        one = ctx.attempt(lambda: HF.make(a)(M))
+        o = HF.make(a)
+        o.initstate()
+        half = (n // 2)
+        ctx.eq('C14/%s/size-2^k/piece' % a, ctx.attempt(lambda: o.update(M[:half], padding=False))[0], 'ok')
+        ctx.eq('C14/%s/size-2^k/bit-counter' % a, o.padmethod.bitcnt, 8 * half)
+        two = ctx.attempt(lambda: o.update(M[half:], padding=True))
+        ctx.eq('C14/%s/size-2^k/one-shot-differs-from-pieces' % a, one, two)
+        if a in hashlib.algorithms_available and a not in ('md4',):
+            ctx.eq('C14/%s/size-2^k/one-shot-vs-hashlib' % a, one, ('ok', hashlib.new(a, M).digest()))
+
+
 def pts_nil_long(tier):
     pts = [(n, cuts) for n in ((66000, 70000) if tier == 'thorough' else (66000,)) for cuts in ((65530,), (65540, 65600), (100, 65534, 65536))]
     if tier == 'thorough':
@@ -202,6 +232,8 @@ def selftest():
 
 def subchecks():
     return [
+        Sub('power-of-two-sizes', pts_pow2, run_pow2, engine='P', exhaustive=False, chunk=1,
+            bound='16 hashes on messages of exactly 2^16 bytes (and 2^16-1, 2^16+1): one-shot vs two pieces vs hashlib; thorough: exactly 2^20 bytes for all and 2^21 bytes for the 11 faster ones'),
         hsub('pieces', systems, 20,
              bound='16 hashes (MD4, MD5, SHA-0, SHA-1, SHA-224/256/384/512, SHA-512/224, SHA-512/256, BLAKE-224/256/384/512, BLAKE2s, BLAKE2b) x message of 0..3 (thorough 0..4) blocks + tail in {0,1,blen-lenfield-1,blen-lenfield,blen-1}, plus messages of 6 and 9 (thorough 17) blocks + 1 byte; events: feed next 0/1/2/3 blocks, close with the rest; BFS over all histories (all compositions, empty pieces at every position), states deduplicated by (chaining value, bit counter, pad flag, position); each piece compared with the one-piece prefix state of a fresh object, each closing digest with the reference digest'),
         Sub('long-pieces', pts_longpiece, run_longpiece, engine='H', exhaustive=False,
